@@ -25,7 +25,7 @@ from symx import Symx, Budget, K, render, lit_truth
 
 META = {
     'level': 'other',
-    'decides': 'the account-status machine (all states x events) against a reference machine and invariants; the decision by which an executed account becomes selfdestruct / create / touch-empty / change; that the cache-account operations record old and new status and info; that database reads are guarded by storage knowledge',
+    'decides': 'the account-status machine (all states x events) against a reference machine and invariants; the decision by which an executed account becomes selfdestruct / create / touch-empty / change; that the cache-account operations record old and new status and info; that database reads are guarded by storage knowledge; the truth tables of the AccountInfo predicates the machine branches on; that has_storage answers true only on a non-zero cached slot; that balance increments edit the cached account in place',
     'does_not_decide': 'equality of reads with a reference store over whole histories (storage values across many transactions), and the equivalence State = CacheDB over executions',
     'explanation': 'Per-variant partial evaluation of the status functions (complete tables); path enumeration of apply_account_state / CacheDB::commit / CacheAccount operations with symbolic records; guard extraction for the database reads.',
 }
